@@ -73,7 +73,8 @@ class Insn:
         return {"esave": lambda: enc_mov_store(*a), "save": lambda: enc_mov_store(*a), "push": lambda: enc_push(*a),
                 "sub": lambda: enc_sub_rsp(*a), "leafp": lambda: enc_lea_fp_rsp(*a), "add": lambda: enc_add_rsp(*a),
                 "learsp": lambda: enc_lea_rsp_fp(*a), "pop": lambda: enc_pop(*a), "ret": lambda: RET, "jmp": lambda: JMP,
-                "load": lambda: enc_mov_load(*a), "call": lambda: CALL, "nop": lambda: NOP,
+                "load": lambda: enc_mov_load(*a), "call": lambda: (bytes([0xE8]) + a[0]) if a else CALL,
+                "nop": lambda: a[0] if a else NOP,
                 "alloca": lambda: enc_sub_rsp(*a)}[k]()
 
 class Region:
@@ -102,6 +103,17 @@ class PeFunc:
         self.regions = []
         self.leaf = False
         self.fpreg, self.fpoff, self.saved, self.cold_extra = None, 0, [], 0
+
+# body instructions: none of them starts an epilog (add rsp / lea rsp / pop / ret / jmp), but their bytes are
+# what a parser sees when it looks at a return address minus one (the last displacement byte of the call)
+FILLERS = [bytes([0x90]), bytes([0x2B, 0xC3]), bytes([0x48, 0x89, 0xD8]), bytes([0x31, 0xC0]), bytes([0x85, 0xC0]),
+           bytes([0x48, 0x8B, 0x04, 0x24]), bytes([0x0F, 0x1F, 0x40, 0x00]), bytes([0x29, 0xD8]), bytes([0x21, 0xC8])]
+def filler(rng):
+    return Insn("nop", rng.choice(FILLERS))
+def call(rng):
+    # forward and backward calls: the last displacement byte is 0x00 or 0xff in practice
+    hi = rng.choice([0x00, 0xFF, 0x00, 0xFF, rng.below(256)])
+    return Insn("call", bytes([rng.below(256), rng.below(256), 0x00 if hi == 0 else (0xFF if hi == 0xFF else rng.below(256)), hi]))
 
 def make_func(rng, name, shape=None):
     shape = shape or rng.choice(["push", "push", "msvc", "msvc", "fp", "fp", "fpsave", "chained", "chained2", "large", "leaf"])
@@ -172,10 +184,10 @@ def make_func(rng, name, shape=None):
     def body(reg, ncalls):
         for _ in range(ncalls):
             for _ in range(rng.range(0, 3)):
-                reg.emit(Insn("nop"), "body")
-            reg.emit(Insn("call"), "body")
+                reg.emit(filler(rng), "body")
+            reg.emit(call(rng), "body")
         for _ in range(rng.range(0, 2)):
-            reg.emit(Insn("nop"), "body")
+            reg.emit(filler(rng), "body")
     def epilog(reg, extra=0, term="ret"):
         # restores of mov-saved registers are ordinary body instructions
         for r, off in zip(saves, save_offs):
@@ -192,11 +204,11 @@ def make_func(rng, name, shape=None):
     body(r0, rng.range(1, 3))
     if shape in ("chained", "chained2"):
         # the hot region jumps to a cold region placed elsewhere; the cold region's info chains to the primary
-        r0.emit(Insn("nop"), "body")
+        r0.emit(filler(rng), "body")
         if rng.chance(1, 2):
             epilog(r0, 0, rng.choice(["ret", "ret", "jmp"]))
         else:
-            r0.emit(Insn("call"), "body")          # ends with a call that does not return
+            r0.emit(call(rng), "body")          # ends with a call that does not return
         r1 = Region()
         r1.chain = 0
         r1.fpreg, r1.fpoff = r0.fpreg, r0.fpoff
@@ -217,7 +229,7 @@ def make_func(rng, name, shape=None):
             epilog(r0, 0, "ret")
             body(r0, rng.range(1, 2))
         if rng.chance(1, 6):
-            r0.emit(Insn("call"), "body")          # noreturn call: the return address is the end of the function
+            r0.emit(call(rng), "body")          # noreturn call: the return address is the end of the function
         else:
             epilog(r0, 0, rng.choice(["ret", "ret", "jmp"]))
     return f
